@@ -300,6 +300,35 @@ fn run_pairs(cx: &mut Ctx) {
             }
         }
     }
+    // `==` is transitive (needed for "two keys address the same entry exactly when they are equal"):
+    // the only listed exception is the int/float precision boundary (F-C14-3)
+    let mut eq_triples = 0u64;
+    for i in 0..n {
+        for j in 0..n {
+            if obs[i * n + j].eq != "1" || i == j {
+                continue;
+            }
+            for k in 0..n {
+                if k == j || obs[j * n + k].eq != "1" {
+                    continue;
+                }
+                eq_triples += 1;
+                if obs[i * n + k].eq != "1" && !pool[i].has_nan() && !pool[j].has_nan() && !pool[k].has_nan() {
+                    let nums = [&pool[i], &pool[j], &pool[k]];
+                    let boundary = nums.iter().all(|v| matches!(v, V::I(_) | V::F(_)))
+                        && nums.iter().any(|v| matches!(v, V::I(x) if x.unsigned_abs() > 9007199254740992));
+                    cx.d_or_known(
+                        "key_identity(== transitive)",
+                        if boundary { Some("F-C14-3") } else { None },
+                        json!({"kind": "triple", "a": pool[i].canon(), "b": pool[j].canon(), "c": pool[k].canon(),
+                               "note": "a == b and b == c but a != c"}),
+                    );
+                }
+            }
+        }
+    }
+    cx.rep.bump_by("pool=eq_triples", eq_triples);
+
     // transitivity of `<` on comparable triples (impl only)
     let comparable: Vec<usize> = (0..n).filter(|i| obs[i * n + i].lt != "E" && !pool[*i].has_nan()).collect();
     let mut triples = 0u64;
